@@ -32,8 +32,8 @@ def dirsync_set(prog):
     return MustSet(prog, [A.FSYNC_DIR], "fsync_directory*")
 
 
-def c05a(prog, R):
-    r = R.rule("C05.a", "every published file is synced, then its directory, before the id/checksum is returned", "P")
+def c05a(prog, R, rid="C05.a"):
+    r = R.rule(rid, "every published file is synced, then its directory, before the id/checksum is returned", "P")
     dsync = dirsync_set(prog)
     # producers are found by role: a body that finalises an sfa archive (into_inner / finish) on a file
     producers = []
